@@ -49,7 +49,8 @@ def run(ctx, rep):
     c05.rounded(prog, rep)   # corner quadrant tables (R05.2): zero radii / half-side radii go through the same quadrants
     c05.circle(prog, rep)
     plane_sector_tables(prog, rep)
-
+    from rules import axis
+    axis.run_for(ctx.program("default"), rep, 'R18.6', ['src/primitives/rounded_rectangle', 'src/primitives/circle', 'src/primitives/ellipse', 'src/primitives/arc', 'src/primitives/sector', 'src/primitives/common'], 'corner radii, quadrants and centres are computed per axis')
 
 def symmetry(prog, rep):
     """R18.1 mirror symmetry of the hit tests: the centre offset enters only through even functions."""
